@@ -187,6 +187,18 @@ func (c *gCase) openName(root string) func(string) string {
 	return c.abs(root)
 }
 
+// sent gives the form in which the path names of request o go over the wire: relative to the working / start
+// directory on a server that has one (unless the request asks for the absolute form), absolute otherwise.
+func (c *gCase) sent(root string, o gOp) func(string) string {
+	if c.Prog.WorkDir && !o.Abs {
+		return func(p string) string { return p }
+	}
+	return c.abs(root)
+}
+
+// gModifyingOps are the instrumented methods of an opened file that change it.
+var gModifyingOps = map[string]bool{"WriteAt": true, "Chmod": true, "Chown": true, "Truncate": true}
+
 func gAllocCounts(srv *peers.Srv) (int, int, bool) {
 	if srv.OS != nil {
 		return sftp.VerifServerAlloc(srv.OS)
@@ -250,7 +262,12 @@ func gExec(cs *gCase) *gRun {
 		if p.WorkDir {
 			opts = append(opts, sftp.WithStartDirectory(gRSStartDir))
 		}
-		srv = peers.StartRS(rsh.handlers(), opts...)
+		hs := rsh.handlers(p.Ifaces)
+		if got := gIfacesOf(hs); got != p.Ifaces {
+			run.Fault = &gFault{Key: "harness/handler-set", What: fmt.Sprintf("handler set built for %+v implements %+v", p.Ifaces, got)}
+			return run
+		}
+		srv = peers.StartRS(hs, opts...)
 	}
 	finished := false
 	defer func() {
@@ -311,6 +328,9 @@ func gExec(cs *gCase) *gRun {
 	setupCloses := len(hub.closes)
 	hub.counters = map[string]int{}
 	hub.hold = cs.Mode == "gated"
+	if p.Server == "os" && p.ReadOnly {
+		hub.never = gModifyingOps
+	}
 	if cs.Mode == "sleep" {
 		rng := rand.New(rand.NewSource(cs.Seed))
 		hub.sleep = func(key string, n int) time.Duration { return time.Duration(rng.Intn(1500)) * time.Microsecond }
@@ -353,7 +373,7 @@ func gExec(cs *gCase) *gRun {
 				h = "no-such-handle-" + o.H
 			}
 		}
-		fr := o.frame(abs, h)
+		fr := o.frame(cs.sent(root, o), h)
 		frames = append(frames, fr)
 		stream = append(stream, fr...)
 	}
@@ -742,6 +762,14 @@ func gCheckCommon(run *gRun) []lib.Failure {
 				gTypeName(succ)+" or an error STATUS", gFrameText(f))
 			continue
 		}
+		if rt.WantCode != 0 && (f.Typ != wire.Status || gParseStatus(f).Code != rt.WantCode) {
+			why, key := "a server started with ReadOnly() must refuse it with PERMISSION_DENIED", fmt.Sprintf("legal-type/%s/read-only/%s", srv, o.K)
+			if rt.NoCall != "" {
+				why, key = "the handlers do not implement "+rt.NoCall+": the only reply is the status OP_UNSUPPORTED", fmt.Sprintf("legal-type/%s/no-%s/%s", srv, rt.NoCall, o.K)
+			}
+			fail("oracle", key, fmt.Sprintf("request %d (%s) answered with %s; %s", i, o.text(), gFrameText(f), why), fmt.Sprintf("STATUS code=%d", rt.WantCode), gFrameText(f))
+			continue
+		}
 		if rt.Forbidden != "" {
 			for _, c := range run.Calls[run.Setup:] {
 				if strings.HasPrefix(c.Key, rt.Forbidden) {
@@ -816,6 +844,14 @@ func gCheckCommon(run *gRun) []lib.Failure {
 			if c.ErrNil != (f.Typ == succ) {
 				fail("oracle", "data/reply-outcome/"+srv, "the reply type does not follow the result of the call of this request",
 					fmt.Sprintf("call returned err=%q", c.Err), gFrameText(f))
+			}
+		}
+	}
+	if srv == "os" && p.ReadOnly {
+		for _, c := range run.Calls[run.Setup:] {
+			if gModifyingOps[c.Op] {
+				fail("oracle", "read-only/modifying-call-made/"+srv, "a server started with ReadOnly() called a modifying method of an opened file", "no such call", c.Key+" ("+c.Op+")")
+				break
 			}
 		}
 	}
